@@ -112,7 +112,7 @@ def main():
                 "([%s], %s)" % ("; ".join(ids), T(cls)) for ids, cls in rows),
             "Definition section_default : list N := %s." % T(default),
             "Definition section_loop : list (list N) :=\n  [%s]." % ";\n   ".join(T(x) for x in loop), ""])
-    except (Unsupported, OSError, SyntaxError) as e:
+    except Exception as e:  # noqa: BLE001 (fail-closed: whatever goes wrong gives the stub)
         sys.stderr.write("extract_sections: %s\n" % e)
         text = "\n".join(head + ["(* STUB: %s *)" % str(e).replace("*)", "* )").replace("(*", "( *")[:300],
                                  "Definition ok_sections : bool := false.",
